@@ -50,6 +50,8 @@ def check(run):
     run.assumptions = ["IEEE double: np.finfo(float).eps = 2.22e-16", "admissible inputs keep every decision at least 1e-6 rad from its boundary (the property's quantifier)"]
     _intersection(run, P)
     _tolerances_explicit(run, P)
+    from ..rules import sqtol
+    sqtol.check(run, P, GEOMETRY_FILES)
     _argument_roles(run, P)
     _on_circle_tolerance(run, P)
     _pole_latitude(run, P)
